@@ -47,6 +47,7 @@ META = dict(
 PRINTABLE = [chr(i) for i in range(32, 127)]
 SPECIALS = list(".:/_-@+ %&=?#")
 CLOCKS = [1700000000.0004, 1700000000.4995, 1700000000.9996]
+EXTRA_DECIMALS = ["12.50", "1E-8", "3.1E+4"]      # extra keyword arguments may be decimals of any exponent
 
 
 class _HmacRecorder:
@@ -147,7 +148,9 @@ def binance_endpoint(ctx, account="spot_account", method="query_order", tier="qu
     fn = getattr(acc, method)
     gen = _strings(ctx, tier)
     dec = lambda name: ctx.dec("dec_" + name, 4, lo=1, hi=10 ** 9)     # noqa: E731
-    kw = _args_for(fn, gen, dec, lambda: {"newOrderRespType": gen("extra_kwarg")})
+    kw = _args_for(fn, gen, dec, lambda: {"newOrderRespType": gen("extra_kwarg"),
+                                          "extraDecimal": Decimal(EXTRA_DECIMALS[ctx.choice("extra_decimal",
+                                                                                            len(EXTRA_DECIMALS))])})
     run(fn(**kw))
     call = sess.calls[-1]
     url, raw_q = _wire_query(call["url_obj"], call["params"])
@@ -191,7 +194,9 @@ def bitstamp_endpoint(ctx, method="get_order_status", tier="quick"):
     fn = getattr(api, method)
     gen = _strings(ctx, tier)
     dec = lambda name: ctx.dec("dec_" + name, 4, lo=1, hi=10 ** 9)     # noqa: E731
-    kw = _args_for(fn, gen, dec, lambda: {"extra_option": gen("extra_kwarg")})
+    kw = _args_for(fn, gen, dec, lambda: {"extra_option": gen("extra_kwarg"),
+                                          "extra_decimal": Decimal(EXTRA_DECIMALS[ctx.choice("extra_decimal",
+                                                                                             len(EXTRA_DECIMALS))])})
     run(fn(**kw))
     run(fn(**kw))
     nonces = []
